@@ -11,6 +11,7 @@ import (
 	"io"
 
 	"github.com/go-git/go-git/v6/plumbing"
+	githash "github.com/go-git/go-git/v6/plumbing/hash"
 	"github.com/go-git/go-git/v6/utils/binary"
 )
 
@@ -135,7 +136,7 @@ func readHashFunction(d *decoder) (stateFn, error) {
 		return nil, fmt.Errorf("%w: %v not registered", ErrUnsupportedHashFunction, d.hasher)
 	}
 
-	d.hash = d.hasher.New()
+	d.hash = githash.New(d.hasher)
 	err = binary.Write(d.hash, revHeader, d.version, hf)
 	if err != nil {
 		return nil, fmt.Errorf("failed to hash rev header: %w", err)
